@@ -26,6 +26,9 @@
                                 = slot when no jump-ahead lap in between) and `resolution_hash_input_independent`
                                 (`ov_cache_independent`, `ov_order_independent`)
     drops                     → `drop_only_when`, `accepted_iff_placed`
+    two shards (ApplyMetric)  → `am2Step` (primary always with dropIfBefore 0, secondary iff configured, with its start):
+                                `run2_shard`, `two_shard_exactly_once`, `two_shard_delivered`, `primary_independent_of_secondary`,
+                                `primary_drop_only_gap_or_stop`, `secondary_drop_only_when`, `unconfigured_shard_untouched`
   Assumptions (hypotheses `OpOk`, `hw ∈ allowedResolutions`): resolutions are values of format.AllowedResolution — enforced in
   the code by MetricMetaValue.RestoreCachedInfo and Config validation. uint32 wrap-around is outside the model.
 -/
@@ -267,6 +270,7 @@ theorem iterStep_TInv (n : Nat) (s : S) (h : TInv s) : TInv (iterStep n s) := by
 def OpOk : Op → Prop
   | .ev _ mk _ res _ _ => mk = .normal → res ∈ allowedResolutions
   | .am _ res _ _ => res ∈ allowedResolutions
+  | .amSec _ res _ _ => res ∈ allowedResolutions
   | .rc hw hwSlow => hw ∈ allowedResolutions ∧ hwSlow ∈ allowedResolutions
   | _ => True
 
@@ -293,6 +297,9 @@ theorem step_TInv (s : S) (op : Op) (hop : OpOk op) (h : TInv s) : TInv (step s 
   | rc hw hwSlow => exact ⟨h.1, h.2.1, hop⟩
   | am ts res hash scr =>
     exact bump_TInv _ (applyEv_TInv _ _ _ _ _ _ _ hop (accept_TInv _ _ _ _ _ _ _ statusRes_allowed h))
+  | amSec ts res hash start =>
+    exact bump_TInv _ (applyEv_TInv _ _ _ _ _ _ _ hop (accept_TInv _ _ _ _ _ _ _ statusRes_allowed h))
+  | skip => exact h
   | flush nowMs => exact flush_TInv _ _ h
   | drain => exact h
   | stop => exact h
@@ -479,14 +486,14 @@ theorem evStep_Cons (s : S) (e : Entry) (mk : MK) (ts res hash drop : Nat) (h : 
   · omega
   · have := hb _ h1; omega
 
-theorem amStep_Cons (s : S) (ts res hash : Nat) (h : Cons s) : Cons (amStep s ts res hash).1 := by
+theorem amStepD_Cons (s : S) (ts res hash drop : Nat) (h : Cons s) : Cons (amStepD s ts res hash drop).1 := by
   obtain ⟨hpn, hb⟩ := h
-  show Cons (bump (applyEv (accept s (4 * s.next + 2) 0 statusResolution 0 0 true).1 true (4 * s.next) ts res hash 0).1)
+  show Cons (bump (applyEv (accept s (4 * s.next + 2) 0 statusResolution 0 drop true).1 true (4 * s.next) ts res hash drop).1)
   have f2 : 4 * s.next + 2 ∉ s.acc := fun hm => by have := hb _ hm; omega
-  have hA := accept_PN s (4 * s.next + 2) 0 statusResolution 0 0 true f2 hpn
-  have hAa := accept_acc s (4 * s.next + 2) 0 statusResolution 0 0 true
-  have hAn := accept_next s (4 * s.next + 2) 0 statusResolution 0 0 true
-  generalize (accept s (4 * s.next + 2) 0 statusResolution 0 0 true).1 = s1 at *
+  have hA := accept_PN s (4 * s.next + 2) 0 statusResolution 0 drop true f2 hpn
+  have hAa := accept_acc s (4 * s.next + 2) 0 statusResolution 0 drop true
+  have hAn := accept_next s (4 * s.next + 2) 0 statusResolution 0 drop true
+  generalize (accept s (4 * s.next + 2) 0 statusResolution 0 drop true).1 = s1 at *
   have f0 : 4 * s.next ∉ s1.acc := fun hm => by
     rcases hAa _ hm with h1 | h1
     · omega
@@ -497,7 +504,7 @@ theorem amStep_Cons (s : S) (ts res hash : Nat) (h : Cons s) : Cons (amStep s ts
     · have := hb _ h1; omega
   refine ⟨applyEv_PN _ _ _ _ _ _ _ f0 f1 hA, ?_⟩
   intro x hx
-  show x < 4 * ((applyEv s1 true (4 * s.next) ts res hash 0).1.next + 1)
+  show x < 4 * ((applyEv s1 true (4 * s.next) ts res hash drop).1.next + 1)
   rw [applyEv_next, hAn]
   rcases applyEv_acc _ _ _ _ _ _ _ x hx with h1 | h1 | h1
   · omega
@@ -505,6 +512,8 @@ theorem amStep_Cons (s : S) (ts res hash : Nat) (h : Cons s) : Cons (amStep s ts
   · rcases hAa _ h1 with h2 | h2
     · omega
     · have := hb _ h2; omega
+
+theorem amStep_Cons (s : S) (ts res hash : Nat) (h : Cons s) : Cons (amStep s ts res hash).1 := amStepD_Cons s ts res hash 0 h
 
 theorem flushAll_Cons (s : S) (h : Cons s) : Cons (flushAll s) := by
   have h1 := iterStep_Cons W s h
@@ -516,6 +525,8 @@ theorem step_Cons (s : S) (op : Op) (h : Cons s) : Cons (step s op) := by
   cases op with
   | ev e mk ts res hash drop => exact evStep_Cons _ _ _ _ _ _ _ h
   | am ts res hash scr => exact amStep_Cons _ _ _ _ h
+  | amSec ts res hash start => exact amStepD_Cons _ _ _ _ _ h
+  | skip => exact ⟨h.1, fun id hid => by have := h.2 id hid; show id < 4 * (s.next + 1); omega⟩
   | rc hw hwSlow => exact h
   | flush nowMs => exact flush_Cons _ _ h
   | drain => exact h
@@ -868,6 +879,180 @@ theorem resolution_hash_same_on_all_agents (metric : Nat) (c₁ c₂ : List (Byt
   rw [(resolution_hash_ignores_scratch_prefix H scratch₁ scratch₂ metric _).1,
     ov_cache_independent c₁ c₂ tags₁, ov_order_independent c₂ tags₁ tags₂ hp hn]
 
+/-! ## Two shards: the routing of Agent.ApplyMetric (primary always with dropIfBeforeTimestamp = 0, secondary iff configured,
+    with its start timestamp) -/
+
+/-- ShardFixedKey names one of the two shards (otherwise ApplyMetric reports a sharding error and applies nothing) -/
+def K1Ok (k1 : Nat) : Prop := k1 = 1 ∨ k1 = 2
+
+def Op2Ok : Op2 → Prop
+  | .am2 _ k1 _ _ _ res _ => K1Ok k1 ∧ res ∈ allowedResolutions
+  | _ => True
+
+theorem amPrimary_eq (s : S) (kind : Kind) (ts res hash : Nat) : amPrimary s kind ts res hash = amStep s ts res hash := by
+  cases kind <;> rfl
+
+theorem amSecondary_eq (s : S) (kind : Kind) (ts res hash start : Nat) :
+    amSecondary s kind ts res hash start = amStepD s ts res hash start := by
+  cases kind <;> rfl
+
+/-- each shard of the two-shard agent performs an ordinary single-shard step -/
+theorem am2_shard_step (a : A2) (kind : Kind) (k1 k2 start ts res hash : Nat) (hk : K1Ok k1) (i : Nat) (hi : i < 2) :
+    ((am2Step a kind k1 k2 start ts res hash).1).get i = step (a.get i) (opFor a i (.am2 kind k1 k2 start ts res hash)) := by
+  have hi' : i = 0 ∨ i = 1 := by omega
+  unfold am2Step opFor
+  rcases hk with rfl | rfl <;> rcases hi' with rfl | rfl <;> cases hs : secondaryOf 2 _ k2 <;>
+    simp [A2.get, A2.set, amPrimary_eq, amSecondary_eq, step, hs]
+
+theorem step2_shard (a : A2) (op : Op2) (hop : Op2Ok op) (i : Nat) (hi : i < 2) :
+    (step2 a op).get i = step (a.get i) (opFor a i op) := by
+  have hi' : i = 0 ∨ i = 1 := by omega
+  cases op with
+  | am2 kind k1 k2 start ts res hash => exact am2_shard_step a kind k1 k2 start ts res hash hop.1 i hi
+  | flush nowMs => rcases hi' with rfl | rfl <;> simp [step2, opFor, A2.get, step]
+  | drain => rcases hi' with rfl | rfl <;> simp [step2, opFor, A2.get, step]
+  | flushAll => rcases hi' with rfl | rfl <;> simp [step2, opFor, A2.get, step]
+
+theorem opFor_ok (a : A2) (i : Nat) (op : Op2) (hop : Op2Ok op) : OpOk (opFor a i op) := by
+  cases op with
+  | am2 kind k1 k2 start ts res hash =>
+    show OpOk (if i = k1 - 1 then Op.am ts res hash true
+      else match secondaryOf 2 k1 k2 with
+        | some _ => Op.amSec (carryTs (a.get (k1 - 1)) ts res) res hash start
+        | none => Op.skip)
+    split
+    · exact hop.2
+    · cases secondaryOf 2 k1 k2 with
+      | some q => exact hop.2
+      | none => trivial
+  | flush nowMs => trivial
+  | drain => trivial
+  | flushAll => trivial
+
+/-- **Projection.** Whatever two-shard history the agent goes through, each shard goes through a single-shard history — so
+    every single-shard theorem above (exactly once, never early, rounded) holds for each shard of the two-shard agent. -/
+theorem run2_shard (ops : List Op2) (a : A2) (hops : ∀ op ∈ ops, Op2Ok op) (i : Nat) (hi : i < 2) :
+    ∃ l : List Op, (run2 a ops).get i = run (a.get i) l ∧ ∀ o ∈ l, OpOk o := by
+  induction ops generalizing a with
+  | nil => exact ⟨[], rfl, fun o ho => by cases ho⟩
+  | cons op ops ih =>
+    obtain ⟨l, hl, hok⟩ := ih (step2 a op) (fun o ho => hops o (List.mem_cons_of_mem _ ho))
+    refine ⟨opFor a i op :: l, ?_, ?_⟩
+    · show (run2 (step2 a op) ops).get i = run (step (a.get i) (opFor a i op)) l
+      rw [hl, step2_shard a op (hops op List.mem_cons_self) i hi]
+    · intro o ho
+      rcases List.mem_cons.mp ho with rfl | ho
+      · exact opFor_ok a i op (hops op List.mem_cons_self)
+      · exact hok o ho
+
+theorem init2_get (t0 hw hws i : Nat) : (init2 t0 hw hws).get i = init t0 hw hws := by
+  unfold init2 A2.get; split <;> rfl
+
+/-- **Exactly once, per shard.** On an agent with two shards, after any history of ApplyMetric calls (any event kind, any
+    primary shard, secondary shard configured or not, start time before or after the event), flushes, drains and the final
+    flush, on EACH shard every accepted id is in exactly one place exactly once and nothing else is anywhere. -/
+theorem two_shard_exactly_once (t0 hw hws : Nat) (ops : List Op2) (hops : ∀ op ∈ ops, Op2Ok op) (i : Nat) (hi : i < 2) :
+    (∀ id ∈ ((run2 (init2 t0 hw hws) ops).get i).acc, (locations ((run2 (init2 t0 hw hws) ops).get i)).count id = 1) ∧
+    (∀ id, id ∉ ((run2 (init2 t0 hw hws) ops).get i).acc → (locations ((run2 (init2 t0 hw hws) ops).get i)).count id = 0) := by
+  obtain ⟨l, hl, _⟩ := run2_shard ops (init2 t0 hw hws) hops i hi
+  rw [hl, init2_get]
+  exact exactly_once t0 hw hws l
+
+/-- … and after Agent.FlushAllData each shard's ring is empty and every id it accepted is in its pushed buckets exactly once;
+    every delivered event sits in a bucket not earlier than its clamped timestamp, with the rounded timestamp -/
+theorem two_shard_delivered (t0 hw hws : Nat) (ops : List Op2) (h1 : hw ∈ allowedResolutions) (h2 : hws ∈ allowedResolutions)
+    (hops : ∀ op ∈ ops, Op2Ok op) (i : Nat) (hi : i < 2) :
+    ((run2 (init2 t0 hw hws) (ops ++ [.flushAll])).get i).ring = [] ∧
+    (∀ id ∈ ((run2 (init2 t0 hw hws) (ops ++ [.flushAll])).get i).acc,
+      (outIds ((run2 (init2 t0 hw hws) (ops ++ [.flushAll])).get i)).count id = 1) ∧
+    (∀ b ∈ ((run2 (init2 t0 hw hws) (ops ++ [.flushAll])).get i).out, ∀ e ∈ b.items,
+      e.cts ≤ b.time ∧ e.ts = e.cts / e.res * e.res) := by
+  obtain ⟨l, hl, hok⟩ := run2_shard ops (init2 t0 hw hws) hops i hi
+  have hrun : (run2 (init2 t0 hw hws) (ops ++ [.flushAll])).get i = run (init t0 hw hws) (l ++ [.flushAll]) := by
+    have : run2 (init2 t0 hw hws) (ops ++ [.flushAll]) = step2 (run2 (init2 t0 hw hws) ops) .flushAll := by
+      unfold run2; rw [List.foldl_append]; rfl
+    rw [this, step2_shard _ Op2.flushAll (by trivial) i hi, hl, init2_get]
+    unfold run; rw [List.foldl_append]; rfl
+  rw [hrun]
+  have hd := delivered_exactly_once t0 hw hws l h1 h2 hok
+  refine ⟨hd.1, hd.2, ?_⟩
+  intro b hb e he
+  have hok' : ∀ o ∈ l ++ [Op.flushAll], OpOk o := by
+    intro o ho
+    rcases List.mem_append.mp ho with ho | ho
+    · exact hok o ho
+    · simp at ho; subst ho; trivial
+  have := delivered_not_early t0 hw hws (l ++ [.flushAll]) h1 h2 hok' b hb e he
+  exact ⟨this.1, this.2.2.1⟩
+
+/-- **The primary shard ignores the secondary's configuration.** What ApplyMetric does on the primary shard — the state it
+    leaves and whether the event is accepted — is the single-shard `amStep` (dropIfBeforeTimestamp = 0) whatever
+    ShardFixedKey2 / ShardFixedKey2Timestamp are and whatever the event kind is. -/
+theorem primary_independent_of_secondary (a : A2) (kind kind' : Kind) (k1 k2 k2' start start' ts res hash : Nat) (hk : K1Ok k1) :
+    ((am2Step a kind k1 k2 start ts res hash).1).get (k1 - 1) = (amStep (a.get (k1 - 1)) ts res hash).1 ∧
+    (am2Step a kind k1 k2 start ts res hash).2.1 = (amStep (a.get (k1 - 1)) ts res hash).2 ∧
+    ((am2Step a kind k1 k2 start ts res hash).1).get (k1 - 1) = ((am2Step a kind' k1 k2' start' ts res hash).1).get (k1 - 1) ∧
+    (am2Step a kind k1 k2 start ts res hash).2.1 = (am2Step a kind' k1 k2' start' ts res hash).2.1 := by
+  have key : ∀ (kd : Kind) (q st : Nat), ((am2Step a kd k1 q st ts res hash).1).get (k1 - 1) = (amStep (a.get (k1 - 1)) ts res hash).1 ∧
+      (am2Step a kd k1 q st ts res hash).2.1 = (amStep (a.get (k1 - 1)) ts res hash).2 := by
+    intro kd q st
+    unfold am2Step
+    rcases hk with rfl | rfl <;> cases hs : secondaryOf 2 _ q <;> simp [A2.get, A2.set, amPrimary_eq]
+  exact ⟨(key kind k2 start).1, (key kind k2 start).2, (key kind k2 start).1.trans (key kind' k2' start').1.symm,
+    (key kind k2 start).2.trans (key kind' k2' start').2.symm⟩
+
+theorem accept_fields (s : S) (id ts res hash drop : Nat) (aux : Bool) :
+    (accept s id ts res hash drop aux).1.stop = s.stop ∧ (accept s id ts res hash drop aux).1.cur = s.cur ∧
+    (accept s id ts res hash drop aux).1.send = s.send := by
+  unfold accept
+  split
+  · exact ⟨rfl, rfl, rfl⟩
+  · split <;> exact ⟨rfl, rfl, rfl⟩
+
+theorem amStepD_none (s : S) (ts res hash drop : Nat) (h : (amStepD s ts res hash drop).2 = none) :
+    s.stop = true ∨ gap s.cur s.send > 0 ∨ (0 < drop ∧ keyTs (clampTs ts s.cur) res < drop) := by
+  have hf := accept_fields s (4 * s.next + 2) 0 statusResolution 0 drop true
+  have h' : (applyEv (accept s (4 * s.next + 2) 0 statusResolution 0 drop true).1 true (4 * s.next) ts res hash drop).2 = none := h
+  have h1 := applyEv_none _ _ _ _ _ _ _ h'
+  have h2 := (accept_none _ _ _ _ _ _ _ h1.1).2
+  rw [hf.1, hf.2.1, hf.2.2] at h2
+  rcases h2 with h3 | h3 | h3
+  · exact Or.inl h3
+  · exact Or.inr (Or.inl h3)
+  · exact Or.inr (Or.inr ⟨by omega, h3⟩)
+
+/-- **Drops on the primary shard.** Through ApplyMetric an event is dropped on its primary shard only during shutdown or
+    while that shard's receive queue has a gap — never because of the secondary shard's start time. -/
+theorem primary_drop_only_gap_or_stop (a : A2) (kind : Kind) (k1 k2 start ts res hash : Nat) (hk : K1Ok k1)
+    (h : (am2Step a kind k1 k2 start ts res hash).2.1 = none) :
+    (a.get (k1 - 1)).stop = true ∨ gap (a.get (k1 - 1)).cur (a.get (k1 - 1)).send > 0 := by
+  rw [(primary_independent_of_secondary a kind kind k1 k2 k2 start start ts res hash hk).2.1] at h
+  rcases amStepD_none (a.get (k1 - 1)) ts res hash 0 h with h1 | h1 | h1
+  · exact Or.inl h1
+  · exact Or.inr h1
+  · omega
+
+/-- **Drops on the secondary shard**: shutdown, gap, or the (carried, clamped, rounded) timestamp is before its start time -/
+theorem secondary_drop_only_when (a : A2) (kind : Kind) (k1 k2 start ts res hash : Nat)
+    (hs : secondaryOf 2 k1 k2 ≠ none) (h : (am2Step a kind k1 k2 start ts res hash).2.2 = none) :
+    (a.get (1 - (k1 - 1))).stop = true ∨ gap (a.get (1 - (k1 - 1))).cur (a.get (1 - (k1 - 1))).send > 0 ∨
+    (0 < start ∧ keyTs (clampTs (carryTs (a.get (k1 - 1)) ts res) (a.get (1 - (k1 - 1))).cur) res < start) := by
+  unfold am2Step at h
+  cases hq : secondaryOf 2 k1 k2 with
+  | none => exact absurd hq hs
+  | some q =>
+    rw [hq] at h
+    simp only [amSecondary_eq] at h
+    exact amStepD_none _ _ _ _ _ h
+
+/-- a shard that is neither primary nor (effective) secondary is not touched -/
+theorem unconfigured_shard_untouched (a : A2) (kind : Kind) (k1 k2 start ts res hash : Nat) (hk : K1Ok k1)
+    (hs : secondaryOf 2 k1 k2 = none) :
+    ((am2Step a kind k1 k2 start ts res hash).1).get (1 - (k1 - 1)) = bump (a.get (1 - (k1 - 1))) := by
+  unfold am2Step
+  rw [hs]
+  rcases hk with rfl | rfl <;> simp [A2.get, A2.set]
+
 /-! ## Non-vacuity and sharpness witnesses
 
   The witnesses use concrete numbers, so they are stated for the constants as they are in the pinned tree (`Pinned`); if
@@ -920,5 +1105,17 @@ example : [((3 : Nat), ([97, 98] : Bytes)), (1, [120])].Perm [(1, [120]), (3, [9
     ([((3 : Nat), ([97, 98] : Bytes)), (1, [120])].map (·.1)).Nodup := ⟨List.Perm.swap _ _ _, by decide⟩
 -- a tag sent twice makes the result order dependent (the distinct-names hypothesis is needed)
 example : Pinned → (mapAll [] [(1, [97]), (1, [98])]).ov ≠ (mapAll [] [(1, [98]), (1, [97])]).ov := by decide
+
+-- two shards: a unique-values event whose metric has a secondary shard starting in the future is accepted on the primary and
+-- dropped on the secondary; once the start time has passed both accept it; without a (valid) secondary the other shard is skipped
+example : Pinned → Op2Ok (.am2 .unique 1 2 2000000 1000000 5 7) := by intro _; exact ⟨Or.inl rfl, by decide⟩
+example : Pinned → (am2Step (init2 1000000 5 15) .unique 1 2 2000000 1000000 5 7).2.1 ≠ none ∧
+    (am2Step (init2 1000000 5 15) .unique 1 2 2000000 1000000 5 7).2.2 = none ∧ secondaryOf 2 1 2 ≠ none := by decide
+example : Pinned → (am2Step (init2 1000000 5 15) .values 2 1 999000 1000000 5 7).2.1 ≠ none ∧
+    (am2Step (init2 1000000 5 15) .values 2 1 999000 1000000 5 7).2.2 ≠ none := by decide
+example : secondaryOf 2 1 1 = none ∧ secondaryOf 2 1 3 = none ∧ secondaryOf 2 1 0 = none ∧ secondaryOf 2 2 1 = some 0 := by decide
+-- handing the secondary's start time to the PRIMARY call would drop the event there too (so `primary_drop_only_gap_or_stop`
+-- is a statement about the 0 in `shard.ApplyUnique(…, 0)`, not a triviality)
+example : Pinned → (amStepD (init 1000000 5 15) 1000000 5 7 2000000).2 = none ∧ (amStep (init 1000000 5 15) 1000000 5 7).2 ≠ none := by decide
 
 end SH.C08
